@@ -16,7 +16,7 @@ pub fn realise(case: &Value) -> Vec<(String, Value, Value, DecodedMap)> {
         }
     } else {
         let m = model_from_case(case);
-        let hows: Vec<String> = match case.get("how") { Some(h) => vec![h.as_str().unwrap().to_string()], None => vec!["new".into(), "builder".into(), "doc".into()] };
+        let hows: Vec<String> = match case.get("how") { Some(h) => vec![h.as_str().unwrap().to_string()], None => vec!["new".into(), "builder".into(), "builder_mixed".into(), "doc".into()] };
         for how in hows {
             if let Some(sm) = build(&m, &how) {
                 v.push((how, json!([m.clone()]), json!([]), DecodedMap::Regular(sm)));
